@@ -2,21 +2,18 @@
    This file contains only the property theorems (closed by [exact]), their [Print Assumptions]
    and non-vacuity examples closed by [vm_compute]; models are in Model/ (Fs.v: the file system,
    DiskWriterFs.v: DiskWriter.HandleChange and the receive loop as sequences of system calls),
-   proofs in Proofs/ (FsP FsReachP FsFrameP FsSysP FsTreeP DwP RecvP FsWfP C03P).
+   proofs in Proofs/ (FsP FsReachP FsFrameP FsSysP FsTreeP DwP RecvP OldListP RecvOldP FsWfP
+   C03P RejectP).
 
-   FULL STATEMENT (DESIGN section 4), not yet proved in this generality:
-     receiver_contained : forall f root D dl merge tmps pks j,
-       wf D f -> temporary names unused and no path component of the stream ->
-       outside_unchanged D f (recv_fs_prefix f root D dl merge tmps pks j)
-   Proved below for merge = true (ReceiveOpt.Merge: the old content of the destination is not
-   walked, every entry of the stream goes to the disk writer, nothing is deleted): for every
-   hostile packet list, every pre-existing destination (symlinks to anywhere, hard links shared
-   with the outside, special files, ...), every prefix j of the effects.  The case merge = false
-   additionally needs the invariant of the old listing (entries not yet passed are untouched,
-   entries below a replaced directory are skipped); see props/C03.json unproved_statements. *)
+   receiver_contained is the full statement of DESIGN section 4: for every hostile packet list,
+   every pre-existing destination (symlinks to anywhere, hard links shared with the outside,
+   special files, ...), both settings of ReceiveOpt.Merge (merge = true: the old content of the
+   destination is not walked, every entry of the stream goes to the disk writer, nothing is
+   deleted; merge = false: the old content is walked first and diffed against the stream,
+   entries the stream does not name are removed) and every prefix j of the effects. *)
 From Coq Require Import List NArith Bool String Ascii.
-From FS Require Import Sx Model.Path Model.Stat Model.Validator Model.Fs Model.DiskWriterFs.
-From FS Require Import Proofs.FsP Proofs.FsReachP Proofs.RecvP Proofs.FsWfP Proofs.C03P.
+From FS Require Import Sx Model.Path Model.Stat Model.Validator Model.Fs Model.DiskWriterFs Model.RecvSpec.
+From FS Require Import Proofs.FsP Proofs.FsReachP Proofs.RecvP Proofs.FsWfP Proofs.C03P Proofs.RejectP.
 Import ListNotations.
 Open Scope N_scope.
 
@@ -32,14 +29,32 @@ Open Scope N_scope.
    inode; D is a directory and not its own descendant; allocation counter above all inode
    numbers) — the temporary names ".tmp.<n>" the writer may use are well-formed, not in use
    inside D and never a component of a path the sender names. *)
-Theorem receiver_contained_partial :
-  forall (f : fs) (root D : N) (dl : bool) (tmps : list bytes) (pks : list packet) (j : nat),
+Theorem receiver_contained :
+  forall (f : fs) (root D : N) (dl merge : bool) (tmps : list bytes) (pks : list packet) (j : nat),
     wf D f -> (forall t, tmpname tmps t -> okname t) -> tmp_unused D f tmps ->
     Forall (clean_packet tmps) pks ->
-    outside_unchanged D f (recv_fs_prefix f root D dl true tmps pks j).
-Proof. exact receiver_contained_merge. Qed.
+    outside_unchanged D f (recv_fs_prefix f root D dl merge tmps pks j).
+Proof. exact receiver_contained_proof. Qed.
 
-Print Assumptions receiver_contained_partial.
+(* A stream that the stream-only specification (Model/RecvSpec.v) calls bad at packet b — a STAT
+   whose path is not a clean relative path inside the root, not strictly after every earlier path,
+   or whose parent was not sent before as a directory; a hard link to a path not sent before;
+   content for an id no earlier STAT announced as a regular file — makes the receive call fail at
+   or before b (error return, or the "closed channel" panic when a STAT follows the terminator),
+   it never succeeds, and the file system is the one left by the packets before b: nothing of the
+   offending packet or of any later one is applied.  No hypothesis on the file system, the
+   destination, Merge or the temporary names. *)
+Theorem bad_stream_rejected :
+  forall (f : fs) (root D : N) (dl merge : bool) (tmps : list bytes) (pks : list packet) (b : nat),
+    spec_bad pks sspec_init 0 = Some b ->
+    let st := recv_fs f root D dl merge tmps pks in
+    (exists k, (k <= b)%nat /\ (r_out st = Failed k \/ r_out st = Panicked k))
+    /\ recv_succeeds st = false
+    /\ r_fs st = r_fs (recv_fs f root D dl merge tmps (firstn b pks)).
+Proof. exact bad_stream_rejected_proof. Qed.
+
+Print Assumptions receiver_contained.
+Print Assumptions bad_stream_rejected.
 
 (* ---- non-vacuity: a hostile destination and a hostile stream inside the hypotheses ---- *)
 Fixpoint bs (s : string) : bytes :=
@@ -78,6 +93,10 @@ Definition ex_run : rstate := recv_fs ex_fs 1 ex_D false true [] ex_pks.
 Example example_in_domain : ex_D = 5 /\ domain_b 8 ex_fs ex_D [] ex_pks = true.
 Proof. vm_compute. split; reflexivity. Qed.
 
+(* the specification calls the stream bad at packet 6 (the path "..") *)
+Example example_spec_bad : spec_bad ex_pks sspec_init 0 = Some 6%nat.
+Proof. vm_compute. reflexivity. Qed.
+
 (* the stream is rejected at the escaping path (packet 6), after the six effects of the first six packets *)
 Example example_rejected : r_out ex_run = Failed 6 /\ r_applied ex_run = 6%nat.
 Proof. vm_compute. split; reflexivity. Qed.
@@ -99,3 +118,14 @@ Example example_outside_same :
   map (get (r_fs ex_run)) [1; 2; 3; 4] = map (get ex_fs) [1; 2; 3; 4]
   /\ (match get ex_fs 3 with Some {| i_kind := KFile d |} => Some d | _ => None end) = Some (bs "O:f").
 Proof. vm_compute. split; reflexivity. Qed.
+
+(* without Merge the same stream first removes what it does not name: the old file a is gone,
+   the symlink l has been replaced by a directory — and the outside is as before *)
+Definition ex_run2 : rstate := recv_fs ex_fs 1 ex_D false false [] ex_pks.
+Example example_nomerge :
+  let f' := r_fs ex_run2 in
+  r_out ex_run2 = Failed 6
+  /\ rwalk ex_fs ex_D [bs "a"] = Some 8 /\ rwalk f' ex_D [bs "a"] = None
+  /\ (match rwalk f' ex_D [bs "l"] with Some i => is_dir f' i | None => false end) = true
+  /\ map (get f') [1; 2; 3; 4] = map (get ex_fs) [1; 2; 3; 4].
+Proof. vm_compute. repeat split; reflexivity. Qed.
